@@ -75,7 +75,7 @@ def run(pid, tier, tmp, replay):
     rc, errlog = vlib.run_driver(cfg['variant'], 'engine_driver', args, tmp, timeout=900)
     if rc != 0:
         raise vlib.Infra('engine_driver exited with %s: %s' % (rc, open(errlog, errors='replace').read()[-1500:]))
-    val = vlib.validate_trace('Engine_Trace.tla', 'Engine_Trace.cfg', trace, tmp)
+    val = vlib.validate_trace('Engine_Trace.tla', 'Engine_Trace.cfg', trace, tmp, timeout=3000)
     kval = None
     if pid == 'C05':
         # the delay rule around REAL kill plugins (own post_action_delay, always_continue, a later action stopping the
@@ -90,7 +90,7 @@ def run(pid, tier, tmp, replay):
         krc, kerr = vlib.run_driver('plain', 'kill_driver', kargs, tmp, timeout=900)
         if krc != 0:
             raise vlib.Infra('kill_driver exited with %s: %s' % (krc, open(kerr, errors='replace').read()[-1500:]))
-        kval = vlib.validate_trace('KillAction_Trace.tla', 'KillAction_Trace.cfg', ktrace, tmp)
+        kval = vlib.validate_trace('KillAction_Trace.tla', 'KillAction_Trace.cfg', ktrace, tmp, timeout=3000)
     for t in ths:
         t.join()
     if errs:
